@@ -278,8 +278,8 @@ def run(c):
                          ["chanmap/chanmap_harness.cpp"] + [s for s in vlib.LL_SOURCES if os.path.exists(s)] +
                          [vlib.REPO + "/tests/test_tools/" + f for f in ("test_radio.cpp", "test_servers.cpp", "hexdump.cpp")],
                          link=["-lboost_unit_test_framework"])
-        if not c.replay:
-            vlib.model_check(c, "ChannelMap", "ChannelMap.tla", "MCq.cfg" if c.quick else "MC.cfg", workers=4)
+        # (also in replay mode, so that the evidence file of a replay run is complete)
+        vlib.model_check(c, "ChannelMap", "ChannelMap.tla", "MCq.cfg" if c.quick or c.replay else "MC.cfg", workers=4)
         exe_cls, exe_ll = f_cls.result(), f_ll.result()
     if c.replay:
         return replay(c, exe_cls, exe_ll)
